@@ -574,10 +574,26 @@ def install(threadpool=True, socketserver_too=False):
     """Rebinds the concurrency globals of the library (and socketserver) to the shim."""
     if _INSTALLED:
         return
+    import importlib
+
     import jsonrpclib.threadpool as tp
 
     _INSTALLED.append((tp, "threading", tp.threading))
     _INSTALLED.append((tp, "queue", tp.queue))
+    # Re-execute the module with the shim standing in for `threading` and `queue` in sys.modules, so that names
+    # resolved at class-definition time (e.g. `class Worker(threading.Thread)`) are bound to the shim as well;
+    # then (re)bind the module attributes, which is what every run-time reference goes through.
+    real = {k: sys.modules.get(k) for k in ("threading", "queue")}
+    sys.modules["threading"] = shim_threading
+    sys.modules["queue"] = shim_queue()
+    try:
+        importlib.reload(tp)
+    finally:
+        for k, v in real.items():
+            if v is None:
+                sys.modules.pop(k, None)
+            else:
+                sys.modules[k] = v
     tp.threading = shim_threading
     tp.queue = shim_queue()
     if socketserver_too:
